@@ -9,10 +9,12 @@ use crate::{
     geometry::{Point, Size},
     primitives::{
         circle,
-        common::{JoinKind, LineJoin, LineSide, Scanline, StrokeOffset, StyledScanline},
+        common::{
+            JoinKind, LineJoin, LineSide, Scanline, StrokeOffset, StyledScanline, ThickSegment,
+        },
         ellipse,
         line::intersection_params::{Intersection, IntersectionParams},
-        rounded_rectangle, triangle, Circle, Ellipse, Line, RoundedRectangle, Triangle,
+        rounded_rectangle, triangle, Circle, Ellipse, Line, Rectangle, RoundedRectangle, Triangle,
     },
 };
 use core::ops::Range;
@@ -115,5 +117,20 @@ pub fn line_join(start: Point, mid: Point, end: Point, width: u32) -> (u8, [Poin
             join.second_edge_start.left,
             join.second_edge_start.right,
         ],
+    )
+}
+
+/// A `ThickSegment` between two joins given by their corner points
+/// (`[first_edge_end.left, first_edge_end.right, second_edge_start.left, second_edge_start.right]`):
+/// `is_skeleton()`, the (right, left) edges that `intersection()` rasterises and
+/// `edges_bounding_box()`.
+pub fn thick_segment_box(start: [Point; 4], end: [Point; 4]) -> (bool, Line, Line, Rectangle) {
+    let segment = ThickSegment::verif_from_corners(start, end);
+    let (right, left) = segment.verif_edges();
+    (
+        segment.is_skeleton(),
+        right,
+        left,
+        segment.edges_bounding_box(),
     )
 }
